@@ -13,7 +13,7 @@ from ..ctx import canon
 from . import _align_common as ac
 
 TITLE = "Seeded results are reproducible under any thread schedule"
-DECIDING = ["M-EXEC", "M-REPRO", "M-HASHSEED"]
+DECIDING = ["M-EXEC", "M-REPRO", "M-HASHSEED", "M-REPEAT"]
 LEVEL = "exploration"
 RULE = ("a scenario = (continuum, dissimilarity, sampler, mode, n_samples, precision, ground-truth subset given as an "
         "unsorted list or a set, numpy seed); its result vector "
@@ -23,7 +23,9 @@ RULE = ("a scenario = (continuum, dissimilarity, sampler, mode, n_samples, preci
         "submitter blocks, then started in reverse order / best-alignment-job last / seeded random permutations; "
         "free running with 0-5 ms jitter under sys.setswitchinterval(1e-5); the genuine ThreadPoolExecutor with "
         "os.cpu_count patched; GIL hand-offs injected (sys.monitoring LINE events) at random statement boundaries of the "
-        "library's Python code inside the jobs; plus plain repetition in the same process; results must be bit-identical.  A set of "
+        "library's Python code inside the jobs; every run builds fresh continuum / dissimilarity objects, and two extra runs "
+        "repeat the computation on the very objects of the reference run; one scenario in five is large and sparse enough "
+        "for the fast mode to record a finite window; plus plain repetition in the same process; results must be bit-identical.  A set of "
         "common scenarios is also run by every worker process, each under a different PYTHONHASHSEED (0, 1, 2, 3, "
         "random...) and the digests are compared across processes. non-trivial = scenario with >= 2 jobs; distinct = "
         "distinct (scenario, schedule)")
@@ -45,7 +47,7 @@ def plan(tier, seed):
     shards = []
     for i in range(n):
         shards.append({"env": {"PYTHONHASHSEED": HASH_SEEDS[i % len(HASH_SEEDS)]},
-                       "params": {"time_budget": 70 if tier == "quick" else 700}})
+                       "params": {"time_budget": 50 if tier == "quick" else 700}})
     return {"shards": shards, "timeout": 460 if tier == "quick" else 2700}
 
 
@@ -68,11 +70,17 @@ def make_sampler(name):
     return pa.ShuffleContinuumSampler("int_pivot" if name == "shuffle_int" else "float_pivot")
 
 
-def result_vector(ctx, sc, policy, workers, sched_seed):
-    """Run the scenario under one schedule; returns (digest, values, executor records, rng draws off the main thread)."""
-    _, pool = ac.setup(ctx)
-    dissim = pool.get(sc["dissim"])
-    continuum = cases.build_continuum(sc["continuum"])
+def result_vector(ctx, sc, policy, workers, sched_seed, objects=None):
+    """Run the scenario under one schedule; returns (digest, values, executor records, rng draws off the main thread).
+    Every run gets FRESH objects (continuum, dissimilarity) unless `objects` hands over the ones of an earlier run -
+    then the run is a repetition on the same objects."""
+    ac.setup(ctx)
+    if objects is None:
+        dissim = cases.build_dissim(sc["dissim"])
+        continuum = cases.build_continuum(sc["continuum"])
+    else:
+        dissim, continuum = objects
+    _last_objects["o"] = (dissim, continuum)
     real_cpu = os.cpu_count
     old_switch = sys.getswitchinterval()
     sched.take_records()
@@ -128,6 +136,16 @@ def result_vector(ctx, sc, policy, workers, sched_seed):
     return digest, vals, sched.take_records(), off_main
 
 
+def gen_windowed_scenario(rng):
+    """A continuum large and sparse enough for the fast mode to record a finite window, with overlaps so that windowed
+    and exact alignments of the samples can differ."""
+    n, k = rng.choice([(4, 14), (4, 16), (3, 40), (5, 12)])
+    cspec = cases.gen_continuum(rng, n_annot=n, sizes=[k] * n, family=rng.choice(["grid", "grid", "mixeddur"]), labels=cases.LABELS_SMALL)
+    return {"continuum": cspec, "dissim": {"kind": "combined", "alpha": 1.0, "beta": 1.0, "delta": 1.0, "pos": None, "cat": None},
+            "ground_truth": None, "ground_truth_as": "list", "sampler": rng.choice(["statistical", "shuffle_int"]), "mode": "fast",
+            "n_samples": rng.choice([2, 3, 4]), "precision": None, "np_seed": rng.randrange(2 ** 31)}
+
+
 def gen_scenario(rng, dspecs):
     dspec = rng.choice(dspecs)
     labels = cases.dissim_labels(dspec) or cases.LABELS_SMALL
@@ -156,11 +174,19 @@ def check_case(ctx, case):
         ctx.fail_exc(f"reference-run-raises:{type(e).__name__}", e, monitor="M-REPRO")
         return None
     ctx.count("M-EXEC", len(recs))
+    ref_objects = _last_objects.get("o")
     if off:
         ctx.observe("rng_draws_off_main_thread", "reference-run", off)
-    for policy, workers, sseed in case["schedules"]:
+    schedules = [list(x) for x in case["schedules"]]
+    # plain repetition on the very same continuum and dissimilarity objects (first in order, then under a held schedule)
+    schedules = [["repeat-same-objects:fifo", 1, 0], ["repeat-same-objects:lifo", 3, 1]] + schedules
+    for policy, workers, sseed in schedules:
         try:
-            dig, vals, recs, off = result_vector(ctx, sc, policy, workers, sseed)
+            if policy.startswith("repeat-same-objects:"):
+                ctx.count("M-REPEAT")
+                dig, vals, recs, off = result_vector(ctx, sc, policy.split(":")[1], workers, sseed, objects=ref_objects)
+            else:
+                dig, vals, recs, off = result_vector(ctx, sc, policy, workers, sseed)
         except Exception as e:
             ctx.fail_exc(f"run-raises:{policy}:{type(e).__name__}", e, monitor="M-REPRO")
             continue
@@ -188,6 +214,7 @@ def check_case(ctx, case):
 
 
 _perm_seen = set()
+_last_objects = {}
 
 
 def run(ctx):
@@ -215,8 +242,9 @@ def run(ctx):
     for i in range(ctx.scale(14, 160)):
         if ctx.out_of_time():
             break
-        sc = gen_scenario(rng, dspecs)
-        k = ctx.scale(5, 8)
+        sc = gen_windowed_scenario(rng) if i % 5 == 4 else gen_scenario(rng, dspecs)
+        ctx.observe("scenario_kind", "fast-windowed-size" if i % 5 == 4 else "small")
+        k = ctx.scale(5, 8) if i % 5 != 4 else 4
         chosen = rng.sample(POLICIES, k)
         case = {"scenario": sc, "schedules": [[p, w, rng.randrange(10 ** 6)] for p, w in chosen]}
         ctx.begin_case(case)
